@@ -587,6 +587,39 @@ def db_m_wrong_units(spec, wb, rng, fw):
     return False
 
 
+def db_m_units_swapped(kind):
+    """the Units cell of a compartment / characteristic / parameter row is replaced by another *valid* unit word"""
+
+    def f(spec, wb, rng, fw):
+        wanted = {"compartment": set(fw.comps.index), "characteristic": set(fw.characs.index), "parameter": set(fw.pars.index)}[kind]
+        labels = {}
+        for df in (fw.comps, fw.characs, fw.pars):
+            for code, row in df.iterrows():
+                labels[row["display name"]] = code
+        swap = {"number": "Probability", "fraction": "Number", "probability": "Number", "rate": "Duration", "duration": "Probability", "proportion": "Number", "n.a.": "Number"}
+        for ws in wb.worksheets:
+            if ws.title in ("Population Definitions", "Transfers", "Interactions"):
+                continue
+            title = None
+            for r in range(1, ws.max_row + 1):
+                v = ws.cell(r, 1).value
+                if v in labels:
+                    title = labels[v]
+                    continue
+                if v in (None, ""):
+                    title = None
+                    continue
+                if title in wanted and v in spec["pops"]:
+                    for c in range(2, 7):
+                        u = ws.cell(r, c).value
+                        if isinstance(u, str) and u.strip().lower().split(" ")[0] in swap:
+                            ws.cell(r, c).value = swap[u.strip().lower().split(" ")[0]]
+                            return True
+        return False
+
+    return f
+
+
 def db_m_missing_pop_row(spec, wb, rng, fw):
     if len(spec["pops"]) < 2:
         return False
@@ -672,6 +705,9 @@ DB_MUTATIONS = [
     ("databook:delete-required-table-sheet", "reject", db_m_delete_tdve_sheet),
     ("databook:blank-row-values", "reject", db_m_blank_row_values),
     ("databook:unit-mismatch", "reject", db_m_wrong_units),
+    ("databook:unit-mismatch[compartment,other valid unit]", "reject", db_m_units_swapped("compartment")),
+    ("databook:unit-mismatch[characteristic,other valid unit]", "reject", db_m_units_swapped("characteristic")),
+    ("databook:unit-mismatch[parameter,other valid unit]", "reject", db_m_units_swapped("parameter")),
     ("databook:missing-population-row", "reject", db_m_missing_pop_row),
     ("databook:unknown-table", "reject", db_m_unknown_table),
     ("databook:duplicate-table", "reject", db_m_duplicate_table),
